@@ -2,6 +2,7 @@ package rg
 
 import (
 	"fmt"
+	"go/constant"
 	"go/token"
 	"go/types"
 	"os"
@@ -691,6 +692,40 @@ func (p *bprover) defFacts(s *factSet, goal dfact) {
 				al, ok := fa.X.(*ssa.Alloc)
 				if !ok || al.Referrers() == nil {
 					break
+				}
+				// a slice field of a local record that is assigned exactly once (poll.keys = make([]string, n)) and whose
+				// record is only ever used through its fields: the field's length is the length of what was stored
+				{
+					var only ssa.Value
+					nSt, clean := 0, true
+					for _, r := range *al.Referrers() {
+						switch y := r.(type) {
+						case *ssa.FieldAddr:
+							if y.Field != fa.Field || y.Referrers() == nil {
+								continue
+							}
+							for _, rr := range *y.Referrers() {
+								switch z := rr.(type) {
+								case *ssa.Store:
+									if z.Addr == ssa.Value(y) {
+										nSt++
+										only = z.Val
+									}
+								case *ssa.UnOp:
+								default:
+									clean = false // the field's address goes somewhere
+								}
+							}
+						case *ssa.DebugRef:
+						default:
+							clean = false // the record as a whole is copied, passed on or overwritten
+						}
+					}
+					if clean && nSt == 1 && only != nil {
+						l := p.lenOf(only)
+						s.fs = append(s.fs, dfact{n, l.n, l.k}, dfact{l.n, n, -l.k})
+						push(l.n)
+					}
 				}
 				var src ssa.Value
 				clean := true
@@ -2079,6 +2114,11 @@ func (c *C) proveSite(p *bprover, in ssa.Instruction) (bool, string) {
 		if !ok {
 			return false, "unsupported indexed type " + x.Type().String()
 		}
+		// a table indexed by a small enumeration: the index has a named integer type of the package all of whose values
+		// in the program are its declared constants (or the zero value), and the table has a slot for each
+		if lo, hi, closed := p.c.enumRange(idx.Type()); closed && lo >= 0 && up.n == "0" && hi < up.k {
+			return true, ""
+		}
 		i := p.lin(idx)
 		if !isSignedInt(idx.Type()) {
 			// unsigned index: only the upper bound matters, but we cannot relate it soundly
@@ -3118,6 +3158,42 @@ func bestSoFarIndex(idx, sl *ssa.Phi) bool {
 				}
 			}
 			return true
+		case *ssa.Call:
+			// idx = len(sl) taken BEFORE the append of the same iteration: the same position, provided that the way back
+			// to the header from here always passes the append
+			if b, ok := y.Call.Value.(*ssa.Builtin); !ok || b.Name() != "len" || y.Call.Args[0] != ssa.Value(sl) {
+				return false
+			}
+			var ap *ssa.Call
+			if sl.Referrers() != nil {
+				for _, r := range *sl.Referrers() {
+					if c2, ok := r.(*ssa.Call); ok {
+						if a, ok := isAppend(c2); ok && a.Call.Args[0] == ssa.Value(sl) {
+							if ap != nil {
+								return false
+							}
+							ap = a
+						}
+					}
+				}
+			}
+			if ap == nil {
+				return false
+			}
+			if elems, ok := sliceLiteralElems(ap.Call.Args[1]); !ok || len(elems) != 1 {
+				return false
+			}
+			if x0 != nil && x0 != ap {
+				return false
+			}
+			if ap.Block() != y.Block() && reaches(y.Block(), h, ap.Block()) {
+				return false // some way round the loop skips the append
+			}
+			if ap.Block() == y.Block() && instrIndex(ap) < instrIndex(y) {
+				return false
+			}
+			x0 = ap
+			return true
 		case *ssa.BinOp:
 			if k, ok := constInt(y.Y); !ok || k != 1 || y.Op != token.SUB {
 				return false
@@ -3654,4 +3730,102 @@ func (p *bprover) capAtLeast(x ssa.Value, h lt, at ssa.Instruction, depth int) b
 		}
 	}
 	return p.ProveLE(h, p.lenOf(x), 0, at)
+}
+
+// enumRange: t is a named integer type of the first-party packages whose every value in the analysed program is one of
+// its declared constants or the zero value: values of the type are only ever produced by constants, phis, parameters,
+// loads, map lookups and calls of first-party functions (whose returned values are values of the type again) -- never
+// by arithmetic, by a conversion of a computed integer or by a type assertion. Returns the smallest and largest value.
+func (c *C) enumRange(t types.Type) (lo, hi int64, ok bool) {
+	nt, isNamed := t.(*types.Named)
+	if !isNamed || nt.Obj().Pkg() == nil || !strings.HasPrefix(nt.Obj().Pkg().Path(), ModPath) {
+		return 0, 0, false
+	}
+	bt, isBasic := nt.Underlying().(*types.Basic)
+	if !isBasic || bt.Info()&types.IsInteger == 0 {
+		return 0, 0, false
+	}
+	if c.enumMemo == nil {
+		c.enumMemo = map[*types.Named][3]int64{}
+	}
+	if r, done := c.enumMemo[nt]; done {
+		return r[0], r[1], r[2] == 1
+	}
+	c.enumMemo[nt] = [3]int64{0, 0, 0}
+	// declared constants
+	lo, hi = 0, 0
+	n := 0
+	scope := nt.Obj().Pkg().Scope()
+	for _, name := range scope.Names() {
+		if k, isConst := scope.Lookup(name).(*types.Const); isConst && k.Type() == types.Type(nt) {
+			if v, exact := constant.Int64Val(k.Val()); exact {
+				n++
+				if v < lo {
+					lo = v
+				}
+				if v > hi {
+					hi = v
+				}
+			}
+		}
+	}
+	if n == 0 {
+		return 0, 0, false
+	}
+	closed := true
+	for _, fn := range c.P.allFuncs(firstPartyPkgs...) {
+		for _, b := range fn.Blocks {
+			for _, in := range b.Instrs {
+				v, isVal := in.(ssa.Value)
+				if !isVal || v.Type() != types.Type(nt) {
+					continue
+				}
+				switch x := in.(type) {
+				case *ssa.Phi, *ssa.UnOp, *ssa.Lookup, *ssa.Extract, *ssa.Field, *ssa.Index:
+					if u, isU := in.(*ssa.UnOp); isU && u.Op != token.MUL {
+						closed = false
+					}
+				case *ssa.ChangeType:
+					if _, isK := x.X.(*ssa.Const); !isK && x.X.Type() != types.Type(nt) {
+						closed = false
+					}
+				case *ssa.Convert:
+					k, isK := x.X.(*ssa.Const)
+					if !isK {
+						closed = false
+					} else if kv, isInt := constInt(k); !isInt || kv < lo || kv > hi {
+						closed = false
+					}
+				case *ssa.Call:
+					if cf := x.Call.StaticCallee(); cf == nil || !firstParty(cf) {
+						closed = false
+					}
+				default:
+					closed = false
+				}
+			}
+		}
+	}
+	// constants of the type written in expressions
+	if closed {
+		for _, fn := range c.P.allFuncs(firstPartyPkgs...) {
+			for _, b := range fn.Blocks {
+				for _, in := range b.Instrs {
+					for _, op := range in.Operands(nil) {
+						if k, isK := (*op).(*ssa.Const); isK && k.Value != nil && k.Type() == types.Type(nt) {
+							if kv, isInt := constInt(k); isInt && (kv < lo || kv > hi) {
+								closed = false
+							}
+						}
+					}
+				}
+			}
+		}
+	}
+	r := [3]int64{lo, hi, 0}
+	if closed {
+		r[2] = 1
+	}
+	c.enumMemo[nt] = r
+	return lo, hi, closed
 }
